@@ -69,6 +69,9 @@ def scan_trusted(built):
 def props_of_error(built, specs_by_key, e):
     """property ids a failed obligation is reported under, and the obligation's name"""
     fn = e.get('fn')
+    lo = lemma_of_error(built, e)
+    if lo:
+        return list(built.lemma_obls[lo]['props']), 'lemma:%s' % lo
     spec = specs_by_key.get(fn)
     fprops = list(spec.props) if spec else []
     cid = e.get('clause')
@@ -112,6 +115,16 @@ def verus_name(key):
     return 'all::%s::%s' % (cont, fn)
 
 
+def lemma_of_error(built, e):
+    """name of the `// @obligation`-marked lemma an error lies in, if any"""
+    for sp in e.get('spans', []):
+        if sp['file'] == 'all.rs':
+            for nm, lo in getattr(built, 'lemma_obls', {}).items():
+                if lo['first'] <= sp['line'] <= lo['last']:
+                    return nm
+    return None
+
+
 def scope_of(built, prop):
     keys = []
     for s in built.fnspecs:
@@ -136,6 +149,9 @@ def count_obligations(built, prop, scope):
             f = [x for x in built.fns if x['key'] == s.key]
             if f and f[0]['has_body']:
                 obs.append(s.key + '#safety')
+    for nm, lo in sorted(getattr(built, 'lemma_obls', {}).items()):
+        if prop in lo['props'] and not (lo['gated'] and built.zorro_gate is False):
+            obs.append('lemma:%s' % nm)
     return obs
 
 
@@ -156,7 +172,7 @@ def _fns_of_hard_errors(built, res):
     return keys
 
 
-def both_runs(verif, repo, use_cache, extra=()):
+def both_runs(verif, repo, use_cache, extra=(), part='main'):
     """main run + canary run.  If Verus' front end rejects the assembled file because of text inside specific
     functions, fall back in two steps: (1) drop the body-level proof hints of those functions (they may refer to
     locals the change renamed or shadowed), (2) put those functions under external_body (the change uses a construct
@@ -165,7 +181,7 @@ def both_runs(verif, repo, use_cache, extra=()):
     args = ['--rlimit', RLIMIT, '--multiple-errors', MULTI, '--num-threads', '16', '-V', 'spinoff-all'] + list(extra)
     degrade, extern = set(), set()
     for rnd in range(4):
-        main_b = build.build(repo, verif, canary=False, degrade=degrade, extern=extern)
+        main_b = build.build(repo, verif, canary=False, degrade=degrade, extern=extern, part=part)
         r1 = run.run_verus(verif, main_b, 'main', args, use_cache)
         if not r1['hard_errors']:
             break
@@ -183,7 +199,7 @@ def both_runs(verif, repo, use_cache, extra=()):
             degrade -= new_ext
             continue
         break
-    can_b = build.build(repo, verif, canary=True, degrade=degrade, extern=extern)
+    can_b = build.build(repo, verif, canary=True, degrade=degrade, extern=extern, part=part)
     r2 = run.run_verus(verif, can_b, 'canary', ['--rlimit', '20', '--multiple-errors', '2', '--num-threads', '16'], use_cache)
     main_b.degraded = degrade
     main_b.externed = extern
@@ -217,7 +233,7 @@ def _check(verif, repo, prop, tier, seed, use_cache, write_evidence, t0, selftes
     claimed = {c['property_id'] for c in manifest['checks']}
     if prop not in claimed:
         raise Undecided('property %s is not claimed in MANIFEST.json (see not_applicable)' % prop)
-    main_b, can_b, r1, r2 = both_runs(verif, repo, use_cache, extra)
+    main_b, can_b, r1, r2 = both_runs(verif, repo, use_cache, extra, part='zorro' if prop == 'C14' else 'main')
     specs_by_key = {s.key: s for s in main_b.fnspecs}
     scope = scope_of(main_b, prop)
     if not scope:
@@ -231,14 +247,18 @@ def _check(verif, repo, prop, tier, seed, use_cache, write_evidence, t0, selftes
             he['msg'][:200], he.get('repo') or he.get('fn')))
     # ---- the framework's own lemmas / spec items must verify: callers assume them ----
     for e in r1['errors']:
-        if e.get('fn') is None:
+        if e.get('fn') is None and not lemma_of_error(main_b, e):
             where = [sp for sp in e['spans'] if sp['file'] == 'all.rs']
             org = main_b.origin[where[0]['line'] - 1] if where else None
             if org and org[0] in ('contract', 'prelude'):
                 raise Undecided('a lemma / spec item of the framework itself does not verify (%s:%s): %s' % (org[1], org[2], e['msg']))
     # ---- canary: every function in scope must fail its `assert(false)` ----
     failed_canaries = set(e.get('canary') for e in r2['errors'] if e.get('canary'))
-    if r2['hard_errors']:
+    compute_stop = any(e.get('compute_failure') for e in r1['errors'])
+    if compute_stop:
+        # Verus' evaluator refuted a `by(compute_only)` obligation and stopped: the verdict is decided by that failure
+        failed_canaries |= set(scope)
+    elif r2['hard_errors']:
         raise Undecided('canary run rejected: %s' % r2['hard_errors'][0]['msg'][:200])
     fn_has_body = {f['key']: f['has_body'] for f in main_b.fns}
     vacuous = [k for k in scope if fn_has_body.get(k) and k not in failed_canaries and k not in getattr(main_b, 'externed', ())]
@@ -261,6 +281,10 @@ def _check(verif, repo, prop, tier, seed, use_cache, write_evidence, t0, selftes
         failed.setdefault(name, []).append(e)
     if undecided and not failed:
         raise Undecided('resource limit exceeded on %s' % ', '.join(n for n, _ in undecided))
+    if main_b.part == 'zorro' and main_b.zorro_gate is False and not failed:
+        raise Undecided('the constants declared in src/curve/zorro differ from the ones the primality / group-order certificates in '
+                        '/verif/contracts/zorro_cert.json were computed for; the ungated necessary conditions (Fermat tests, generator on curve, '
+                        '[r]G = O, cofactor, mul_by_a) all hold, primality and group order of the new constants are not decided')
     known_hits, new = [], {}
     for name, es in failed.items():
         hit = None
